@@ -319,6 +319,12 @@ class Analysis:
                     b = b.value
                 if isinstance(b, ast.Name) and b.id not in fn.locals and b.id in mutables:
                     probs.append((n.lineno, f"mutation of the module-level container '{b.id}' (defined at line {mutables[b.id]}): {ast.unparse(n)[:60]}"))
+        # objectives, output types and bins-managers are stateless by design (module-level singletons are shared by all calls):
+        # a method other than __init__ that stores into `self` keeps state across calls
+        if fn.cls is not None and fn.node.name != "__init__" and any(k in fn.mod for k in ("objectives.py", "outputtypes.py", "binners.py", "adaptors.py")):
+            for n in _walk_fn(fn.node):
+                if isinstance(n, ast.Attribute) and isinstance(n.ctx, (ast.Store, ast.Del)) and isinstance(n.value, ast.Name) and n.value.id in ("self", "cls"):
+                    probs.append((n.lineno, f"state kept on the (shared) object across calls: {ast.unparse(n)} written outside __init__"))
         for d in fn.node.decorator_list:
             dn = ast.unparse(d)
             if any(m in dn for m in MEMO_DECORATORS):
